@@ -1,5 +1,8 @@
 """C18 - packet buffers: Buffers.tla model-checked, every transition replayed."""
-from engine import tlc, core
+import copy
+import random
+
+from engine import tlc, core, tracecheck
 
 ACTIONS = ["Miss", "CtrlAction", "Use", "PacketOutData", "SetConfig"]
 ADAPTER = "harness.adapters_c18:Adapter"
@@ -47,4 +50,70 @@ def run(ctx):
     raise tlc.TLCError("simulation exported %d behaviours" % len(behs))
   st = core.replay(ctx, ADAPTER, behs, params=dict(N=3), chunk=20)
   ctx.notes["replay_sim"] = dict(behaviours=len(behs), depth=40, **st)
+  # 4. code -> spec: random driver on the real switch, traces validated by TLC
+  ntr = 200 if quick else 3000
+  traces = core.run_driver("props.C18:drive", [(ctx.seed * 100003 + i, 40) for i in range(ntr)])
+  bad = copy.deepcopy(traces[0])          # negative control: corrupt one observation
+  for e in bad:
+    if e["a"] == "ToController":
+      e["obs"]["total"] += 1
+      break
+  r, rej = tracecheck.validate("buffers", "TraceBuffers", "Trace.cfg", traces + [bad], tag="C18")
+  ctx.add_model("TraceBuffers (validation of %d implementation traces)" % ntr, r)
+  if (len(traces), ) not in [(t,) for t, _ in rej]:
+    raise tlc.TLCError("negative control (corrupted total_len) was accepted by the trace spec")
+  for t, matched in rej:
+    if t == len(traces):
+      continue
+    ev = traces[t][matched]
+    st = dict(a=ev["a"], args=ev["args"], exp={})
+    ctx.report(dict(action=ev["a"], via="trace", args=ev["args"]),
+               dict(trace=traces[t], failing_step=matched, note="TLC rejected the trace at this event"))
+  ctx.traces += len(traces)
+  for t in traces[:2000]:
+    ctx.case(core.fp([[e["a"], e["args"]] for e in t]), sample=None)
+  ctx.notes["trace_validation"] = dict(traces=len(traces), events=sum(len(t) for t in traces),
+                                       rejected=len(rej) - 1, negative_control_rejected=True)
   ctx.exhaustive = True
+
+
+ACTS = ["none", "out2", "flood", "inport", "all"]
+
+
+def drive(arg):
+  """Random operation sequence on the real switch; returns the recorded trace."""
+  seed, n = arg
+  from harness.adapters_c18 import Adapter
+  rnd = random.Random(seed)
+  ad = Adapter(N=3)
+  tr = []
+  for _ in range(n):
+    k = rnd.random()
+    if k < 0.4:
+      a = "ToController"
+      args = dict(f=rnd.choice("ab"), p=rnd.randint(1, 3), reason=rnd.choice(["miss", "action"]),
+                  maxLen=rnd.choice([64, 65535]))
+    elif k < 0.75:
+      a = rnd.choice(["PacketOut", "FlowMod"])
+      args = dict(buf=rnd.choice([0, 1, 2, 3, 4, 10]), act=rnd.choice(ACTS))
+    elif k < 0.9:
+      a = "PacketOutData"
+      args = dict(f=rnd.choice("ab"), p=rnd.randint(1, 3), act=rnd.choice(ACTS))
+    else:
+      a = "SetConfig"
+      args = dict(missLen=rnd.choice([0, 128, 65535]))
+    try:
+      obs = ad.step(a, args)
+      wf = True
+    except Exception as e:
+      obs, wf = {"exc": type(e).__name__}, False
+    if a == "ToController":
+      wf = wf and set(obs) == {"buf", "total", "dataLen", "inport", "reason"} and isinstance(obs["buf"], int)
+      if not wf:
+        obs = dict(buf=-1, total=-1, dataLen=-1, inport=-1, reason="bad")
+    elif a != "SetConfig":
+      wf = wf and set(obs) == {"emitted"}
+      if not wf:
+        obs = dict(emitted=[])
+    tr.append(dict(a=a, args=args, obs=obs, wf=wf))
+  return tr
